@@ -258,3 +258,194 @@ pub proof fn lemma_parse_round_trip(e: Element, cs: Seq<char>, items: Seq<GItem>
         }
     }
 }
+
+// ---- the same theorem for tag bodies given as rendered text ----
+/// one item of a tag as text: separators, a bare word, optionally `=`, a quote, the value, the same quote
+pub struct GAttr { pub sep: Seq<char>, pub name: Seq<char>, pub val: Option<(char, Seq<char>)> }
+pub open spec fn val_text(a: GAttr) -> Seq<char> {
+    match a.val { None => Seq::empty(), Some(v) => seq!['=', v.0] + v.1 + seq![v.0] }
+}
+pub open spec fn attr_text(a: GAttr) -> Seq<char> { a.sep + a.name + val_text(a) }
+pub open spec fn render_items(items: Seq<GAttr>, n: int) -> Seq<char>
+    decreases n,
+{
+    if n <= 0 { Seq::empty() } else { render_items(items, n - 1) + attr_text(items[n - 1]) }
+}
+/// the tag body: name (item 0) and attributes, then padding
+pub open spec fn render(items: Seq<GAttr>, pad: Seq<char>) -> Seq<char> { render_items(items, items.len() as int) + pad }
+pub open spec fn gattr_wf(a: GAttr) -> bool {
+    &&& forall|j: int| 0 <= j < a.sep.len() ==> ws(#[trigger] a.sep[j])
+    &&& a.name.len() > 0
+    &&& forall|j: int| 0 <= j < a.name.len() ==> wordc(#[trigger] a.name[j])
+    &&& a.val matches Some(v) ==> (v.0 == '"' || v.0 == '\'') && forall|j: int| 0 <= j < v.1.len() ==> #[trigger] v.1[j] != v.0
+}
+pub open spec fn gattrs_wf(items: Seq<GAttr>, pad: Seq<char>) -> bool {
+    &&& items.len() > 0
+    &&& forall|k: int| 0 <= k < items.len() ==> gattr_wf(#[trigger] items[k])
+    &&& forall|k: int| #![trigger items[k]] 0 <= k < items.len() - 1 ==> (items[k].val is None ==> items[k + 1].sep.len() > 0)
+    &&& forall|j: int| 0 <= j < pad.len() ==> ws(#[trigger] pad[j])
+}
+pub open spec fn item_of(items: Seq<GAttr>, k: int) -> GItem {
+    let s = render_items(items, k).len() as int;
+    let ns = s + items[k].sep.len();
+    let ne = ns + items[k].name.len();
+    GItem { s, ns, ne, val: match items[k].val { None => None, Some(v) => Some((ne + 2, ne + 2 + v.1.len())) } }
+}
+pub open spec fn layout_of(items: Seq<GAttr>) -> Seq<GItem> { Seq::new(items.len(), |k: int| item_of(items, k)) }
+
+pub proof fn lemma_render_len(items: Seq<GAttr>, k: int)
+    requires 0 <= k < items.len(),
+    ensures render_items(items, k + 1).len() == render_items(items, k).len() + attr_text(items[k]).len(),
+        render_items(items, k + 1).len() == item_end(item_of(items, k)),
+{}
+/// the first k items are a prefix of the whole body
+pub proof fn lemma_render_prefix(items: Seq<GAttr>, pad: Seq<char>, k: int)
+    requires 0 <= k <= items.len(),
+    ensures render_items(items, k).len() <= render(items, pad).len(),
+        render(items, pad).take(render_items(items, k).len() as int) == render_items(items, k),
+    decreases items.len() - k,
+{
+    let cs = render(items, pad);
+    if k == items.len() {
+        assert(cs.take(render_items(items, k).len() as int) =~= render_items(items, k));
+    } else {
+        lemma_render_prefix(items, pad, k + 1);
+        let a = render_items(items, k);
+        let b = render_items(items, k + 1);
+        assert(b == a + attr_text(items[k]));
+        assert(cs.take(a.len() as int) =~= cs.take(b.len() as int).take(a.len() as int));
+        assert(b.take(a.len() as int) =~= a);
+    }
+}
+/// item k's text sits in the body at item_of(items, k), character by character
+pub proof fn lemma_render_item(items: Seq<GAttr>, pad: Seq<char>, k: int)
+    requires 0 <= k < items.len(),
+    ensures ({
+        let cs = render(items, pad);
+        let it = item_of(items, k);
+        &&& 0 <= it.s <= it.ns <= it.ne <= item_end(it) <= cs.len()
+        &&& cs.subrange(it.s, it.ns) == items[k].sep
+        &&& cs.subrange(it.ns, it.ne) == items[k].name
+        &&& cs.subrange(it.ne, item_end(it)) == val_text(items[k])
+    }),
+{
+    let cs = render(items, pad);
+    let it = item_of(items, k);
+    let a = render_items(items, k);
+    let b = render_items(items, k + 1);
+    let t = attr_text(items[k]);
+    lemma_render_prefix(items, pad, k + 1);
+    lemma_render_len(items, k);
+    assert(b == a + t);
+    assert(cs.take(b.len() as int) == b);
+    assert(cs.subrange(a.len() as int, b.len() as int) =~= t) by {
+        assert forall|j: int| 0 <= j < t.len() implies cs[a.len() + j] == t[j] by {
+            assert(cs.take(b.len() as int)[a.len() + j] == b[a.len() + j]);
+        }
+    }
+    assert(cs.subrange(it.s, it.ns) =~= t.subrange(0, items[k].sep.len() as int));
+    assert(t.subrange(0, items[k].sep.len() as int) =~= items[k].sep);
+    assert(cs.subrange(it.ns, it.ne) =~= t.subrange(items[k].sep.len() as int, (items[k].sep.len() + items[k].name.len()) as int));
+    assert(t.subrange(items[k].sep.len() as int, (items[k].sep.len() + items[k].name.len()) as int) =~= items[k].name);
+    assert(cs.subrange(it.ne, item_end(it)) =~= t.subrange((items[k].sep.len() + items[k].name.len()) as int, t.len() as int));
+    assert(t.subrange((items[k].sep.len() + items[k].name.len()) as int, t.len() as int) =~= val_text(items[k]));
+}
+pub proof fn lemma_render_item_wf(items: Seq<GAttr>, pad: Seq<char>, k: int)
+    requires gattrs_wf(items, pad), 0 <= k < items.len(),
+    ensures item_wf(render(items, pad), item_of(items, k)),
+{
+    let cs = render(items, pad);
+    let it = item_of(items, k);
+    let a = items[k];
+    lemma_render_item(items, pad, k);
+    assert(gattr_wf(a));
+    assert forall|j: int| it.s <= j < it.ns implies ws(#[trigger] cs[j]) by {
+        assert(cs.subrange(it.s, it.ns)[j - it.s] == a.sep[j - it.s]);
+    }
+    assert forall|j: int| it.ns <= j < it.ne implies wordc(#[trigger] cs[j]) by {
+        assert(cs.subrange(it.ns, it.ne)[j - it.ns] == a.name[j - it.ns]);
+    }
+    match a.val {
+        None => {},
+        Some(v) => {
+            let vt = val_text(a);
+            assert(vt.len() == v.1.len() + 3);
+            assert(vt[0] == '=' && vt[1] == v.0 && vt[vt.len() - 1] == v.0);
+            assert(cs.subrange(it.ne, item_end(it))[0] == vt[0]);
+            assert(cs.subrange(it.ne, item_end(it))[1] == vt[1]);
+            assert(cs.subrange(it.ne, item_end(it))[vt.len() - 1] == vt[vt.len() - 1]);
+            assert forall|j: int| it.ne + 2 <= j < it.ne + 2 + v.1.len() implies #[trigger] cs[j] != cs[it.ne + 1] by {
+                assert(cs.subrange(it.ne, item_end(it))[j - it.ne] == vt[j - it.ne]);
+                assert(vt[j - it.ne] == v.1[j - it.ne - 2]);
+            }
+        },
+    }
+}
+/// rendered well-formed tags have a well-formed layout
+pub proof fn lemma_render_layout(items: Seq<GAttr>, pad: Seq<char>)
+    requires gattrs_wf(items, pad),
+    ensures layout_wf(render(items, pad), layout_of(items)),
+{
+    let cs = render(items, pad);
+    let l = layout_of(items);
+    let n = items.len() as int;
+    assert forall|k: int| 0 <= k < l.len() implies item_wf(cs, #[trigger] l[k]) by { lemma_render_item_wf(items, pad, k); }
+    assert forall|k: int| #![trigger l[k]] 0 <= k < l.len() - 1 implies l[k + 1].s == item_end(l[k])
+            && (l[k].val is None ==> l[k + 1].s < l[k + 1].ns) by {
+        lemma_render_len(items, k);
+        assert(items[k].val is None ==> items[k + 1].sep.len() > 0);
+    }
+    lemma_render_len(items, n - 1);
+    assert forall|j: int| item_end(l[l.len() - 1]) <= j < cs.len() implies ws(#[trigger] cs[j]) by {
+        assert(cs[j] == pad[j - render_items(items, n).len()]);
+    }
+}
+/// the value of item k sits between its quotes
+pub proof fn lemma_render_value(items: Seq<GAttr>, pad: Seq<char>, k: int)
+    requires 0 <= k < items.len(), items[k].val is Some,
+    ensures ({
+        let it = item_of(items, k);
+        let v = (items[k].val->0).1;
+        render(items, pad).subrange(it.ne + 2, it.ne + 2 + v.len()) == v
+    }),
+{
+    let cs = render(items, pad);
+    let it = item_of(items, k);
+    let v = (items[k].val->0).1;
+    let vt = val_text(items[k]);
+    lemma_render_item(items, pad, k);
+    assert(vt.len() == v.len() + 3);
+    assert(cs.subrange(it.ne + 2, it.ne + 2 + v.len()) =~= cs.subrange(it.ne, item_end(it)).subrange(2, (2 + v.len()) as int));
+    assert(vt.subrange(2, (2 + v.len()) as int) =~= v);
+}
+/// C09 as in the statement: parse of the rendered tag returns exactly that name and, in order, those attribute
+/// names and values (element_ok is parse's proved postcondition)
+pub proof fn lemma_parse_render(e: Element, items: Seq<GAttr>, pad: Seq<char>)
+    requires gattrs_wf(items, pad), element_ok(e, pfinal(render(items, pad)).1, encode_utf8(render(items, pad))),
+    ensures
+        parse_ok(render(items, pad)),
+        e.name@ == items[0].name,
+        e.attrs@.len() == items.len() - 1,
+        forall|i: int| #![trigger e.attrs@[i]] 0 <= i < e.attrs@.len() ==> {
+            &&& e.attrs@[i].name@ == items[i + 1].name
+            &&& (e.attrs@[i].value is Some) == (items[i + 1].val is Some)
+            &&& e.attrs@[i].value matches Some(v) ==> v@ == (items[i + 1].val->0).1
+        },
+{
+    let cs = render(items, pad);
+    let l = layout_of(items);
+    lemma_render_layout(items, pad);
+    lemma_round_trip(cs, l);
+    lemma_parse_round_trip(e, cs, l);
+    lemma_render_item(items, pad, 0);
+    assert(l[0] == item_of(items, 0));
+    assert forall|i: int| #![trigger e.attrs@[i]] 0 <= i < e.attrs@.len() implies ({
+            &&& e.attrs@[i].name@ == items[i + 1].name
+            &&& (e.attrs@[i].value is Some) == (items[i + 1].val is Some)
+            &&& e.attrs@[i].value matches Some(v) ==> v@ == (items[i + 1].val->0).1
+        }) by {
+        lemma_render_item(items, pad, i + 1);
+        assert(l[i + 1] == item_of(items, i + 1));
+        if items[i + 1].val is Some { lemma_render_value(items, pad, i + 1); }
+    }
+}
